@@ -12,13 +12,13 @@
 #include <string.h>
 
 typedef struct { int ptype, opt, tlen; const char* name; } tcol_t;
-#define TBL_MAXC 3
+#define TBL_MAXC 18
 #define TBL_MAXN 40
 typedef struct {
     int ncols; tcol_t cols[TBL_MAXC];
     int N;                              /* total rows */
     uint64_t mask[TBL_MAXC];            /* bit r set => row r is null (OPTIONAL columns only) */
-    int nrg; int rg_rows[8];            /* row-group partition, sums to N (entries may be 0) */
+    int nrg; int rg_rows[20];            /* row-group partition, sums to N (entries may be 0) */
     uint64_t comp[TBL_MAXC];            /* bit r set => a batch boundary after row r (in addition to row-group boundaries) */
     int codec;                          /* carquet_compression_t */
     int page_sel;                       /* 0: page_size 1 (every batch its own page), 1: 96 bytes, 2: default */
